@@ -18,10 +18,11 @@ pub fn prop() -> Prop {
             "sizes <= 40 (images <= 17), stroke widths <= 40",
         ],
         subs: vec![
-            Sub::tape("primitives", 40, 240_000, 3_600_000, |d, cx| run(d, cx, 0)),
-            Sub::tape("polylines", 40, 40_000, 600_000, |d, cx| run(d, cx, 1)),
-            Sub::tape("images", 120, 50_000, 750_000, |d, cx| run(d, cx, 2)),
-            Sub::tape("text", 60, 40_000, 600_000, |d, cx| run(d, cx, 3)),
+            Sub::tape("primitives", 40, 240_000, 12_000_000, |d, cx| run(d, cx, 0)),
+            Sub::tape("primitives_large", 40, 1_500, 75_000, |d, cx| run(d, cx, 4)),
+            Sub::tape("polylines", 40, 40_000, 2_000_000, |d, cx| run(d, cx, 1)),
+            Sub::tape("images", 120, 50_000, 2_500_000, |d, cx| run(d, cx, 2)),
+            Sub::tape("text", 60, 40_000, 2_000_000, |d, cx| run(d, cx, 3)),
         ],
     }
 }
@@ -29,6 +30,7 @@ pub fn prop() -> Prop {
 fn run(d: &mut Dec, cx: &mut Cx, group: u32) -> Res {
     let kind = match group {
         0 => d.u(0, 7),
+        4 => 100 + d.u(0, 7),
         1 => 8,
         2 => 9,
         _ => 10,
@@ -48,7 +50,13 @@ fn err(kind: &str, what: &str, e: Fault) -> Fail {
 fn check<C: ImgCol>(d: &mut Dec, cx: &mut Cx, kind: u32) -> Res {
     let big = d.ratio(1, 5);
     let dom = ItemDom { r: 40, max: if big { 40 } else { 16 }, max_width: if d.ratio(1, 8) { 40 } else { 12 }, dotted: false, text_len: 12 };
-    let item = gen_item::<C>(d, kind, dom);
+    // kinds >= 100: styled primitives of 100..=300 px (sub-check "primitives_large")
+    let (item, kind) = if kind >= 100 {
+        let st = crate::gen::style::<C>(d, 40);
+        (Item::Styled(crate::gen::large_shape(d, kind - 100, 100, 300), st), kind - 100)
+    } else {
+        (gen_item::<C>(d, kind, dom), kind)
+    };
     // clip window: derived from the item's bounding box so that it usually cuts the drawable
     let bb = item.bounding_box();
     let win = {
